@@ -72,3 +72,80 @@ Definition m_convert (Tin Tout : cty) (i1 i2 : bool) : lir :=
   | CBytes M => m_to_bytes Tin M x
   | CFlag n => if n <? 256 then m_uclamp_of n x else x
   end.
+
+(* ------------------------------------------------------------------------------------------
+   Venom: vyper/codegen_venom/builtins/convert.py on the operand %1 (fresh names from %3). *)
+Local Infix "+++" := (@app vinstr) (right associativity, at level 60).
+
+(* assert (val <= hi) unsigned: gt, iszero, assert *)
+Definition v_assert_ule (hi : Z) (v : vop) (n : nat) : list vinstr :=
+  [ V2 (pn n) OGt (VLit hi) v; V1 (pn (n + 1)) OIszero (VVar (pn n)); VAssert (VVar (pn (n + 1))) ].
+Definition v_assert_sge (lo : Z) (v : vop) (n : nat) : list vinstr :=
+  [ V2 (pn n) OSlt (VLit lo) v; V1 (pn (n + 1)) OIszero (VVar (pn n)); VAssert (VVar (pn (n + 1))) ].
+Definition v_assert_sle (hi : Z) (v : vop) (n : nat) : list vinstr :=
+  [ V2 (pn n) OSgt (VLit hi) v; V1 (pn (n + 1)) OIszero (VVar (pn n)); VAssert (VVar (pn (n + 1))) ].
+
+(* _clamp_numeric_convert *)
+Definition v_clamp_numeric (v : vop) (alo ahi olo ohi : Z) (signed : bool) (n : nat) : list vinstr :=
+  let l1 := if alo <? olo then v_assert_sge olo v n else [] in
+  let n2 := if alo <? olo then Nat.add n 2 else n in
+  let l2 := if ohi <? ahi then (if signed then v_assert_sle ohi v n2 else v_assert_ule ohi v n2) else [] in
+  l1 +++ l2.
+Definition v_cn_next (alo ahi olo ohi : Z) (n : nat) : nat :=
+  Nat.add (if alo <? olo then Nat.add n 2 else n) (if ohi <? ahi then 2%nat else 0%nat).
+
+Definition v_int_to_int (S T : nty) (v : vop) (n : nat) : list vinstr :=
+  if nsigned S && negb (nsigned T) then
+    (if nbits T <? nbits S then
+       [ V2 (pn n) OGt (VLit (2 ^ nbits T - 1)) v; V1 (pn (n + 1)) OIszero (VVar (pn n));
+         V2 (pn (n + 2)) OSlt (VLit 0) v; V1 (pn (n + 3)) OIszero (VVar (pn (n + 2)));
+         V2 (pn (n + 4)) OAnd (VVar (pn (n + 3))) (VVar (pn (n + 1))); VAssert (VVar (pn (n + 4))) ]
+     else v_assert_sge 0 v n)
+  else if negb (nsigned S) && nsigned T then v_assert_ule (2 ^ (nbits T - 1) - 1) v n
+  else if nbits T <? nbits S then v_clamp T v n
+  else [].
+
+Definition v_to_int (Tin : cty) (T : nty) : vtemplate :=
+  match Tin with
+  | CNum S0 =>
+      if ndec S0 then
+        let olo := ty_lo T * DIVISOR in let ohi := ty_hi T * DIVISOR in
+        let n := v_cn_next (ty_lo S0) (ty_hi S0) olo ohi 3 in
+        (v_clamp_numeric px (ty_lo S0) (ty_hi S0) olo ohi true 3 +++ [ V2 (pn n) OSdiv (VLit DIVISOR) px ], VVar (pn n))
+      else (v_int_to_int S0 T px 3, px)
+  | CBool => ([], px)
+  | CAddr => (if nbits T <? 160 then v_clamp T px 3 else [], px)
+  | CFlag _ => (v_int_to_int uint256_t T px 3, px)
+  | CBytes m =>
+      ( V2 "%3" (if nsigned T then OSar else OShr) px (VLit (8 * (32 - m)))
+          :: (if nbits T <? 8 * m then v_clamp T (VVar "%3") 4 else []), VVar "%3")
+  end.
+
+Definition v_to_decimal (Tin : cty) (T : nty) : vtemplate :=
+  match Tin with
+  | CNum S0 =>
+      let olo := Z.quot (ty_lo T) DIVISOR in let ohi := Z.quot (ty_hi T) DIVISOR in
+      let n := v_cn_next (ty_lo S0) (ty_hi S0) olo ohi 3 in
+      (v_clamp_numeric px (ty_lo S0) (ty_hi S0) olo ohi (nsigned S0) 3 +++ [ V2 (pn n) OMul (VLit DIVISOR) px ], VVar (pn n))
+  | CBool => ([ V2 "%3" OMul (VLit DIVISOR) px ], VVar "%3")
+  | CBytes m =>
+      ( V2 "%3" OSar px (VLit (8 * (32 - m))) :: (if 168 <? 8 * m then v_clamp T (VVar "%3") 4 else []), VVar "%3")
+  | _ => ([], px)
+  end.
+
+Definition v_to_bytes (Tin : cty) (M : Z) : vtemplate :=
+  match Tin with
+  | CBytes m =>
+      if M <? m then ([ V2 "%3" OShl px (VLit (8 * M)); V1 "%4" OIszero (VVar "%3"); VAssert (VVar "%4") ], px)
+      else ([], px)
+  | _ => ([ V2 "%3" OShl px (VLit (8 * (32 - M))) ], VVar "%3")
+  end.
+
+Definition v_convert (Tin Tout : cty) : vtemplate :=
+  match Tout with
+  | CBool => ([ V1 "%3" OIszero px; V1 "%4" OIszero (VVar "%3") ], VVar "%4")
+  | CNum T => if ndec T then v_to_decimal Tin T else v_to_int Tin T
+  | CAddr => v_to_int Tin uint160_t
+  | CBytes M => v_to_bytes Tin M
+  | CFlag n => (if n <? 256 then v_assert_ule (2 ^ n - 1) px 3 else [], px)
+  end.
